@@ -524,4 +524,5 @@ def preserving():
     from ..selftest import TextMutant as T
     return [
         T("hex-to-dec", REL, "if lastv == 0x0D or 0xD800 <= lastv <= 0xDBFF:", "if lastv == 13 or 55296 <= lastv <= 56319:", None),
+        T("read-ahead-by-concatenation", REL, "            data += more\n", "            data = data + more\n", None),
     ]
